@@ -50,7 +50,7 @@ func genC07(rt *rapid.T) CaseC07 {
 	n := rapid.IntRange(1, maxOps).Draw(rt, "nops")
 	keyIdx := rapid.IntRange(0, len(docKeys)-1)
 	for i := 0; i < n; i++ {
-		kinds := []string{"put", "put", "put", "putall", "putall", "putall", "putbatch", "del", "del", "del", "reopen"}
+		kinds := []string{"put", "put", "put", "putall", "putall", "putall", "putbatch", "del", "del", "del", "reopen", "rsync", "rsync", "rreopen"}
 		if c.Writers > 1 {
 			kinds = append(kinds, "sync", "sync")
 		}
@@ -62,7 +62,7 @@ func genC07(rt *rapid.T) CaseC07 {
 		case "putall", "putbatch":
 			op.Keys = rapid.SliceOfN(keyIdx, 0, 4).Draw(rt, "keys")
 			op.Val = rapid.IntRange(0, 50).Draw(rt, "val")
-		case "sync":
+		case "sync", "rsync":
 			op.From = rapid.IntRange(0, c.Writers-1).Draw(rt, "from")
 		}
 		c.Ops = append(c.Ops, op)
@@ -212,7 +212,7 @@ func execC07(c CaseC07) *Outcome {
 	o := &Outcome{}
 	world.ResetHooks()
 	no := false
-	cl, err := world.NewCluster(ctx, world.ClusterOpts{N: c.Writers, Type: "docstore", Replicate: &no})
+	cl, err := world.NewCluster(ctx, world.ClusterOpts{N: c.Writers + 1, Type: "docstore", Replicate: &no}) // the last replica only reads
 	if err != nil {
 		return fail("harness: cluster: %v", err)
 	}
@@ -297,6 +297,27 @@ func execC07(c CaseC07) *Outcome {
 				}
 				o.Labels = append(o.Labels, "delete-absent")
 			}
+		case "rsync", "rreopen":
+			// the read-only replica (it never writes): it merges a writer's log, or restarts and rebuilds its view
+			reader := c.Writers
+			if op.Kind == "rsync" {
+				src := op.From % c.Writers
+				if cl.Stores[src].OpLog().Len() == 0 {
+					continue
+				}
+				if err := syncFrom(cl, reader, src); err != nil {
+					if err == world.ErrInconclusive {
+						o.Inconclusive = true
+						return o
+					}
+					return fail("step %d: reader sync <-%d: %v", step, src, err)
+				}
+			} else {
+				if err := cl.ReopenWith(ctx, reader, -1, &orbitdb.CreateDBOptions{Replicate: &no}); err != nil {
+					return fail("step %d: the read-only replica cannot restart and load: %v", step, err)
+				}
+			}
+			o.Labels = append(o.Labels, "reader:"+op.Kind)
 		case "reopen":
 			// the replica restarts and rebuilds its documents from storage
 			if err := cl.ReopenWith(ctx, w, -1, &orbitdb.CreateDBOptions{Replicate: &no}); err != nil {
